@@ -252,7 +252,15 @@ impl<'a> GeneratorState<'a> {
                             } else {
                                 dasm_operand = variable.to_string();
                             }
-                            if v.memory == VariableMemory::Zeropage {
+                            // A constant address in page zero plus a constant index can be
+                            // beyond page zero: the assembler then uses absolute addressing
+                            let beyond_zeropage = match &v.def {
+                                VariableDefinition::Value(VariableValue::Int(address)) => {
+                                    address + off > 0xff
+                                }
+                                _ => false,
+                            };
+                            if v.memory == VariableMemory::Zeropage && !beyond_zeropage {
                                 cycles += 1;
                                 nb_bytes = 2;
                             } else {
